@@ -209,8 +209,6 @@ RAISEDV == "#-1"
     [] g = "ndata" -> <<ndata, freed>>
 #! FAITHFUL
 , "sigw", "msc", "msh", "nnext", "ndata"
-#! SKIPKINDS
-, "env"
 #! FNPROC
 ,
            fiber_signal_wait |-> {"sig_wait"},
